@@ -26,6 +26,10 @@ def run(ctx):
 
     class ErrC(Exception):
         pass
+
+    class ErrRO(ErrC):
+        """an exception whose `exc_info` attribute cannot be assigned (read-only property)"""
+        exc_info = property(lambda self: None)
     # hierarchy for the model: ids; edges child:parent
     classes = [Exception, OSError, ErrA, ErrB, ErrC, EOFError, LoginDisconnect, ValueError, ConnectionRefusedError]
     cid = {c: i + 1 for i, c in enumerate(classes)}
@@ -52,7 +56,7 @@ def run(ctx):
         return 'none' if e is None else '%d.%d' % (cls_id(e), tag(e))
     keep = []
     lines, impl = [], []
-    raisable = [ErrA, ErrB, ErrC, ValueError, OSError]
+    raisable = [ErrA, ErrB, ErrC, ValueError, OSError, ErrRO]
     for trial in range(ctx.scale(160, 2000)):
         tags.clear()
         origin = ['early', 'ordinary', 'reaction', 'decoder', 'exit', 'status-eof', 'status-eof-refused',
